@@ -35,7 +35,7 @@ def cases(tier, seed):
         combos = [c for c in combos if rnd.random() < 0.22 or (c[1] in ("offset1e6", "cluster_far") and c[2] == 1.0 and c[3] == 2)]
     for k, geo, ls, d in combos:
         yield {"kind": "gram", "kernel": k, "geom": geo, "ls": ls, "d": d, "seed": rnd.randrange(10**6), "hostile": geo != "random"}
-    reps = 1 if tier == "quick" else 10
+    reps = 1 if tier == "quick" else 40
     for _ in range(reps):
         for kern, geo, fpv, b in itertools.product(["rbf", "matern0.5", "matern2.5", "rq", "sum"], ["random", "dups", "near1e-6", "cluster_far"], [False, True], [[], [2]]):
             yield {"kind": "model", "kernel": kern, "geom": geo, "fast_pred_var": fpv, "batch": b, "noise": rnd.choice([1e-4, 1e-2, 0.3]), "seed": rnd.randrange(10**6)}
@@ -46,7 +46,7 @@ def cases(tier, seed):
         # covariance invariants along histories of state-changing operations (shared driver with C03): the hooks see every
         # covariance handed out after train steps, load_state_dict, set_train_data, fantasies ...
         for fam in ("default", "batch", "sgpr", "svgp_whitened", "svgp_unwhitened", "svgp_meanfield"):
-            for _ in range(4 if tier == "quick" else 40):
+            for _ in range(4 if tier == "quick" else 150):
                 yield {"kind": "history", "family": fam, "length": rnd.randint(3, 6), "seed": rnd.randrange(10**6)}
             for directed in (["pred", "load_sd", "pred"], ["pred_eager", "load_sd", "load_sd", "pred"], ["pred", "set_data", "pred"], ["pred", "load_sd", "pred_batch"]):
                 yield {"kind": "history", "family": fam, "seq": directed, "seed": rnd.randrange(10**6)}
@@ -178,7 +178,7 @@ def _history(case, ctx, g):
 
     rnd = _r.Random(case["seed"])
     fam = H.FAMILIES[case["family"]](case["seed"] % 1000)
-    ops = [o for o in H.ops_for(case["family"]) if o != "backward"]
+    ops = [o for o in H.ops_for(case["family"]) if o != "backward" and not (case["family"] == "sgpr" and o in ("fantasy", "pred_eager"))]
     if "seq" in case:
         seq = [o for o in case["seq"] if o in H.ops_for(case["family"])]
     else:
